@@ -206,24 +206,32 @@ void harness(void) {
 #if STEP == 0
 	newtype = ND_u8("type"); VASSUME(newtype < 0x80);
 	uint8_t msg[4] = {3, 0, 255, newtype};
+	verif_tags_armed = true;
 	bool admitted = bidib_node_try_send(A[tgt], newtype, msg, 1);
+	verif_tags_armed = false;
 	bool expect = !pre_blocked[tgt] && hn[tgt] == 0 && sum[tgt] + size_of(newtype) <= LIMIT;
 	VASSERT(admitted == expect, "admitted iff no ancestor-or-self is stalled, nothing is held and the budget has room");
 	VASSERT(wire_n == 0, "try_send itself puts nothing on the wire");
 	direct_sent = admitted;
 #elif STEP == 1 || STEP == 4
 	uint8_t status = ND_u8("stall_status");
+	verif_tags_armed = true;
 	bidib_node_update_stall(A[tgt], status);
+	verif_tags_armed = false;
 	stall[tgt] = status != 0;
 	if (status != 0) VASSERT(wire_n == 0, "a stall notice releases nothing");
 #elif STEP == 3
 	VASSUME(exists[tgt]);
 	pthread_mutex_lock(&bidib_node_state_table_mutex);   /* documented calling context */
+	verif_tags_armed = true;
 	bidib_node_try_queued_messages(st[tgt]);
+	verif_tags_armed = false;
 	pthread_mutex_unlock(&bidib_node_state_table_mutex);
 #else
 	uint8_t resp = ND_u8("resp");
+	verif_tags_armed = true;
 	bidib_node_state_update(A[tgt], resp);
+	verif_tags_armed = false;
 	if (nresp[tgt] == 1 && (answers(rtype[tgt], resp) || verif_now - rtime[tgt] >= 2)) freed = 1;
 #endif
 	if (st[tgt] == NULL) st[tgt] = g_hash_table_lookup(node_state_table, A[tgt]);
